@@ -36,3 +36,9 @@ func VerifNewCmdCache(storeCommand, retrieveCommand string) core.Cache {
 
 // VerifReadTar is readTar (shared by the HTTP and the command cache retrieve paths).
 func VerifReadTar(r io.Reader) (bool, error) { return readTar(r) }
+
+// VerifNewMultiplexer is the cacheMultiplexer newSyncCache builds when more than one cache is
+// configured, over the given caches in the given (priority) order.
+func VerifNewMultiplexer(caches ...core.Cache) core.Cache {
+	return &cacheMultiplexer{caches: caches}
+}
